@@ -125,7 +125,7 @@ func GenScript(t *rapid.T, o GenOpts) Script {
 	base := rapid.IntRange(0, o.MaxBase).Draw(t, "base")
 	fut := rapid.IntRange(1, o.MaxFuture).Draw(t, "future")
 	ws := kit.WorldSpec{P: p, Seed: rapid.Uint64Range(0, 7).Draw(t, "wseed"), Base: base, Future: fut,
-		Pace: rapid.SampledFrom([]int{0, 1, 2, 3, 4, 4}).Draw(t, "pace"), Tx: o.Tx}
+		Pace: kit.Pick(t, "pace", []int{0, 1, 2, 3, 4, 4}), Tx: o.Tx}
 	ws.Branches = kit.GenBranches(t, base+fut, base, o.MaxBranches, o.MaxBLen)
 	if o.Checkpoints && base+fut > 2 {
 		n := rapid.IntRange(0, 3).Draw(t, "ncp")
@@ -203,7 +203,7 @@ func GenScript(t *rapid.T, o GenOpts) Script {
 	}
 	kinds := []string{"view", "view", "view", "headers", "headers", "headers", "inv", "advance", "drop", "connect", "lie", "garbage"}
 	evGen := rapid.Custom(func(t *rapid.T) Event {
-		e := Event{Kind: rapid.SampledFrom(kinds).Draw(t, "kind"), Peer: rapid.IntRange(0, sc.NPeers-1).Draw(t, "peer")}
+		e := Event{Kind: kit.Pick(t, "kind", kinds), Peer: rapid.IntRange(0, sc.NPeers-1).Draw(t, "peer")}
 		switch e.Kind {
 		case "view":
 			e.To = drawRefT(t, "v")
@@ -215,21 +215,21 @@ func GenScript(t *rapid.T, o GenOpts) Script {
 			if rapid.IntRange(0, 5).Draw(t, "longbatch") == 0 {
 				e.Len = rapid.IntRange(1, 60).Draw(t, "lenlong")
 			}
-			switch rapid.IntRange(0, 5).Draw(t, "mutp") {
+			switch kit.Uni(t, "mutp", 6) {
 			case 0, 1:
 				e.Mut = kit.GenMut(t, "mut")
 				e.K = rapid.IntRange(0, e.Len-1).Draw(t, "k")
 			case 2:
-				e.Mode = rapid.SampledFrom([]string{"shuffle", "gap", "dupfirst"}).Draw(t, "mode")
+				e.Mode = kit.Pick(t, "mode", []string{"shuffle", "gap", "dupfirst"})
 			}
 		case "lie":
 			e.Mut = kit.GenMut(t, "mut")
 			e.K = rapid.IntRange(0, 8).Draw(t, "k")
 		case "inv":
 			e.To = drawRefT(t, "i")
-			e.InvKind = rapid.SampledFrom([]string{"known", "unknown", "mixed"}).Draw(t, "invkind")
+			e.InvKind = kit.Pick(t, "invkind", []string{"known", "unknown", "mixed"})
 		case "advance":
-			e.Secs = rapid.SampledFrom([]int{1, 3, 10, 40, 120, 700}).Draw(t, "secs")
+			e.Secs = kit.Pick(t, "secs", []int{1, 3, 10, 40, 120, 700})
 		}
 		return e
 	})
